@@ -325,7 +325,11 @@ func Harness_CHAIN_CloseLease_21()        { step(hCloseLease, 2, 1) }
 
 // the focus deployment has two groups (one order slot and one provider each): a message naming one
 // group, or closing the deployment, must treat the other group correctly
-func stepG2(h int) { nGroups = 2; step(h, 1, 1) }
+func stepG2(h int) {
+	nGroups = 2
+	defer func() { nGroups = 1 }() // native replays share one process: do not leak into the next harness
+	step(h, 1, 1)
+}
 
 func Harness_CHAIN_CreateDeployment_g2()  { stepG2(hCreateDeployment) }
 func Harness_CHAIN_DepositDeployment_g2() { stepG2(hDepositDeployment) }
